@@ -175,6 +175,7 @@ class Engine:
         self.concrete = False  # differential self-test mode: concrete inputs, loops unrolled, callees inlined
         self.definitional = {}
         self.listings = {}
+        self.abstract_kinds = {}
         self.call_memo = {}
         self.ghosts = {}
         self.global_axioms = []
@@ -208,6 +209,16 @@ class Engine:
             return lv
         if sort in ("Mesh", "MeshPatt"):
             return self.fresh_mesh(name, st, assume=False)
+        if sort in ("PattSeq", "MeshPattSeq"):
+            # a list of ABSTRACT patterns: opaque ids with an uninterpreted length and (for mesh
+            # patterns) truth value; pattern containment is the ghost relation LE of the contract
+            kind = "Perm" if sort == "PattSeq" else "MeshPatt"
+            n = fresh(name + "_n")
+            st.assume(n >= 0)
+            F = fresh_fun(name, z3.IntSort(), z3.IntSort())
+            mk = self.abstract_pattern(kind)
+            out = SeqV(n, lambda i, F=F, mk=mk: mk(F(i)), "list", {"fun": F, "len": n})
+            return ListV(out.n, out._at)
         if sort.startswith("Obj:"):
             # an object of a named class whose content is opaque (only contracts/ghosts speak about it)
             parts = sort[4:].split(",")
@@ -226,6 +237,19 @@ class Engine:
             S = fresh_fun(name, z3.IntSort(), z3.BoolSort())
             return SetV(lambda v: S(Z(v)), 1)
         raise Unsupported(f"parameter sort {sort}")
+
+    def abstract_pattern(self, kind):
+        if kind not in self.abstract_kinds:
+            plen = fresh_fun("PLEN", z3.IntSort(), z3.IntSort())
+            truth = fresh_fun("PTRUTH", z3.IntSort(), z3.BoolSort())
+
+            def mk(idt, plen=plen, truth=truth, kind=kind):
+                return ObjV("AbstractPatt", {"__id__": IntV(idt), "__len__": IntV(plen(idt)), "__mk__": mk_ref[0], "__kind__": kind, "__truth__": BoolV(truth(idt))})
+
+            mk_ref = [None]
+            mk_ref[0] = mk
+            self.abstract_kinds[kind] = (mk, plen, truth)
+        return self.abstract_kinds[kind][0]
 
     def fresh_perm(self, name, st, assume=True, kind="Perm"):
         n = fresh(name + "_n")
@@ -582,7 +606,13 @@ class Engine:
             return [("fall", st, None)]
         if isinstance(node, ast.AnnAssign):
             if node.value is not None:
-                self.assign(node.target, self.ev(node.value, st), st)
+                val = self.ev(node.value, st)
+                ann = node.annotation
+                if isinstance(val, ListV) and isinstance(node.value, ast.List) and not node.value.elts and isinstance(ann, ast.Subscript) \
+                        and isinstance(ann.slice, ast.Name) and ann.slice.id in self.abstract_kinds:
+                    mk = self.abstract_kinds[ann.slice.id][0]  # typed empty list of abstract patterns
+                    val = ListV(0, lambda i, mk=mk: mk(z3.IntVal(0)))
+                self.assign(node.target, val, st)
             return [("fall", st, None)]
         if isinstance(node, ast.AugAssign):
             cur = self.ev(_load(node.target), st)
@@ -919,6 +949,10 @@ class Engine:
             if isinstance(sample, TupV):
                 funs = [fresh_fun(nm, z3.IntSort(), z3.IntSort()) for _ in sample.items]
                 return ListV(n, lambda i, funs=funs: TupV([IntV(f(i)) for f in funs]))
+            if isinstance(sample, ObjV) and callable(sample.fields.get("__mk__")):
+                Fo = fresh_fun(nm, z3.IntSort(), z3.IntSort())
+                mk_ = sample.fields["__mk__"]
+                return ListV(n, lambda i, Fo=Fo, mk_=mk_: mk_(Fo(i)))
             if isinstance(sample, BoolV):
                 Fb = fresh_fun(nm, z3.IntSort(), z3.BoolSort())
                 return ListV(n, lambda i, Fb=Fb: BoolV(Fb(i)))
@@ -950,6 +984,10 @@ class Engine:
             return v.n > 0
         if isinstance(v, TupV):
             return z3.BoolVal(len(v) > 0)
+        if isinstance(v, ObjV) and v.cls == "AbstractPatt":
+            if v.fields["__kind__"] == "Perm":
+                return Z(v.fields["__len__"]) > 0  # a Perm is a tuple: truthy iff non-empty
+            return v.fields["__truth__"].t  # MeshPatt.__bool__: has points or shading (abstract)
         raise Unsupported(f"truthiness of {v!r}")
 
     def as_seq(self, v, st):
